@@ -1,6 +1,7 @@
 package pdfread
 
 import (
+	"bytes"
 	"fmt"
 	"unicode/utf16"
 )
@@ -305,6 +306,10 @@ func ParseToUnicode(b []byte) *ToUnicodeMap {
 					announced = int(n)
 				}
 			}
+			if announced > 100 {
+				// Adobe TN #5014 (to which ISO 32000-1 9.10.3 refers): at most 100 entries per block
+				bad("%s announces %d entries, a block holds at most 100", op.Operator, announced)
+			}
 		case "endcodespacerange":
 			if len(op.Operands)%2 != 0 || len(op.Operands)/2 != announced {
 				bad("codespacerange announces %d entries and has %d strings", announced, len(op.Operands))
@@ -348,6 +353,11 @@ func ParseToUnicode(b []byte) *ToUnicodeMap {
 					continue
 				}
 				n := codeOf(hi.B) - codeOf(lo.B) + 1
+				if len(lo.B) > 1 && !bytes.Equal(lo.B[:len(lo.B)-1], hi.B[:len(hi.B)-1]) {
+					// TN #5014: the codes of a range differ in their last byte only (multi-byte ranges
+					// are rectangular); consumers read <00FE> <0101> in different ways
+					bad("bfrange <%X> <%X>: the source codes differ in more than their last byte", lo.B, hi.B)
+				}
 				src := func(k int) []byte {
 					c := codeOf(lo.B) + k
 					out := make([]byte, len(lo.B))
